@@ -99,6 +99,13 @@ func (r *Response) sendBackResponse(
 }
 
 func createSignature(response *Response, samlResponse *samlp.ResponseType, key *rsa.PrivateKey, cert []byte, signatureAlgorithm string) error {
+	// without an acs url the response is written to the body, where only an enveloped signature can be carried
+	if response.AcsUrl == "" {
+		if err := createPostSignature(samlResponse, key, cert, signatureAlgorithm); err != nil {
+			return fmt.Errorf("failed to sign response: %w", err)
+		}
+		return nil
+	}
 	switch response.ProtocolBinding {
 	case PostBinding:
 		if err := createPostSignature(samlResponse, key, cert, signatureAlgorithm); err != nil {
